@@ -93,6 +93,7 @@ type GenOpt struct {
 	MultiModule      bool // some packages belong to a second, versioned module (simulated drivers only)
 	StdImports       bool // some files import "unsafe" ahead of their world imports
 	DirExclude       bool // exclude-paths may name a directory of the world
+	ForceDirExclude  bool // ... and does (real-driver legs: every third world)
 	ReadFaults       bool // some files are unreadable / short at report time, identically in every execution
 	LineDirectives   bool // //line directives in use files (non-clean worlds only)
 	LongLines        bool // use statements get long leading block comments / trailing comments (C19 pipeline leg)
@@ -221,7 +222,7 @@ func Generate(t Drawer, opt GenOpt) (*World, *Meta) {
 	if opt.MultiModule && n > 2 && d.chance(1, 6) {
 		depModuleUpTo = d.rng(1, n-1)
 	}
-	if opt.DirExclude && n > 2 && d.chance(1, 5) {
+	if opt.DirExclude && n > 2 && (d.chance(1, 5) || opt.ForceDirExclude) {
 		// a non-default exclude-paths pattern that names a directory of the world
 		k := d.Draw(n)
 		frag := m.Decls[k].Dir
